@@ -152,7 +152,7 @@ impl Property for C09 {
         // outside the recorded listener events is only visible there
         p.wiring_p_pct = 30;
         let mut t = gen::trace("C09", seed, index, &p);
-        if t.wiring == crate::trace::Wiring::Q && t.bytes_total() <= gen::bound(40) && r.chance(1, 4) {
+        if t.wiring == crate::trace::Wiring::Q && t.bytes_total() <= gen::bound(40) && t.columns * t.lines <= 600 && t.steps.len() <= gen::bound(60) && r.chance(1, 4) {
             // fault-point enumeration: one more resize at EVERY operation boundary
             let g = gen::Geo { cols: t.columns, lines: t.lines };
             let (l, c) = gen::resize_target(&mut r, g, g);
